@@ -109,7 +109,7 @@ Record wf (l : list server) : Prop := {
 Lemma insert_sorted_perm s l : Permutation (insert_sorted s l) (s :: l).
 Proof.
   induction l as [|x r IH]; [apply Permutation_refl|].
-  cbn [insert_sorted]. destruct (srv_lt s x); [apply Permutation_refl|].
+  cbn [insert_sorted]. destruct (srv_lt x s); [|apply Permutation_refl].
   eapply Permutation_trans; [apply perm_skip; exact IH|apply perm_swap].
 Qed.
 
@@ -127,15 +127,34 @@ Proof.
   induction l as [|x r IH]; intros Hs Hidx.
   - cbn. constructor; constructor.
   - cbn [insert_sorted]. inversion Hs as [|? ? Hsr Hall]; subst.
-    destruct (srv_lt s x) eqn:Hlt.
-    + constructor; [exact Hs|]. constructor; [exact Hlt|].
-      rewrite Forall_forall in Hall |- *. intros y Hy. eapply srv_lt_trans; [exact Hlt|apply Hall; exact Hy].
-    + assert (srv_lt x s = true) as Hxs.
-      { destruct (srv_lt_connected x s) as [H|H]; [apply Hidx; left; reflexivity|exact H|congruence]. }
-      constructor.
+    destruct (srv_lt x s) eqn:Hlt.
+    + constructor.
       * apply IH; [exact Hsr|]. intros y Hy. apply Hidx. right. exact Hy.
       * rewrite Forall_forall in Hall |- *. intros y Hy. apply insert_sorted_in in Hy.
-        destruct Hy as [->|Hy]; [exact Hxs|apply Hall; exact Hy].
+        destruct Hy as [->|Hy]; [exact Hlt|apply Hall; exact Hy].
+    + assert (srv_lt s x = true) as Hsx.
+      { destruct (srv_lt_connected s x) as [H|H]; [intros He; apply (Hidx x); [left; reflexivity|congruence]|exact H|congruence]. }
+      constructor; [exact Hs|]. constructor; [exact Hsx|].
+      rewrite Forall_forall in Hall |- *. intros y Hy. eapply srv_lt_trans; [exact Hsx|apply Hall; exact Hy].
+Qed.
+
+(* non-strict order: what the list satisfies while equal keys are around *)
+Definition leP (a b : server) : Prop := srv_lt b a = false.
+
+Lemma leP_trans a b c : leP a b -> leP b c -> leP a c.
+Proof. unfold leP. rewrite !srv_lt_false. lia. Qed.
+
+Lemma insert_sorted_le s l : StronglySorted leP l -> StronglySorted leP (insert_sorted s l).
+Proof.
+  induction l as [|x r IH]; intros Hs.
+  - cbn. constructor; constructor.
+  - cbn [insert_sorted]. inversion Hs as [|? ? Hsr Hall]; subst.
+    destruct (srv_lt x s) eqn:Hlt.
+    + constructor; [apply IH; exact Hsr|].
+      rewrite Forall_forall in Hall |- *. intros y Hy. apply insert_sorted_in in Hy.
+      destruct Hy as [->|Hy]; [unfold leP; apply srv_lt_asym; exact Hlt|apply Hall; exact Hy].
+    + constructor; [exact Hs|]. constructor; [exact Hlt|].
+      rewrite Forall_forall in Hall |- *. intros y Hy. eapply leP_trans; [exact Hlt|apply Hall; exact Hy].
 Qed.
 
 Lemma find_addr_some a l s : find_addr a l = Some s -> In s l /\ sv_addr s = a.
@@ -538,24 +557,6 @@ Proof.
       * destruct (Hin x Hx) as (Hn & Hl). split; [|right; exact Hl]. intros Hs. apply Hn. right. exact Hs.
 Qed.
 
-Lemma insert_sorted_wf s acc :
-  wf acc -> ~ In (sv_addr s) (map sv_addr acc) -> ~ In (sv_idx s) (map sv_idx acc) -> in_range s ->
-  wf (insert_sorted s acc) /\
-  forall b, find_addr b (insert_sorted s acc) = if b =? sv_addr s then Some s else find_addr b acc.
-Proof.
-  intros [Ha Hi Hs Hr] Hna Hni Hrs.
-  pose proof (insert_sorted_perm s acc) as Hp.
-  assert (wf (insert_sorted s acc)) as Hwf.
-  { constructor.
-    - eapply Permutation_NoDup; [apply Permutation_sym; apply Permutation_map; exact Hp|]. cbn [map]. constructor; assumption.
-    - eapply Permutation_NoDup; [apply Permutation_sym; apply Permutation_map; exact Hp|]. cbn [map]. constructor; assumption.
-    - apply insert_sorted_sorted; [exact Hs|]. intros x Hx Heq. apply Hni. rewrite <- Heq. apply in_map. exact Hx.
-    - eapply Permutation_Forall; [apply Permutation_sym; exact Hp|]. constructor; assumption. }
-  split; [exact Hwf|]. intros b.
-  rewrite (find_addr_perm _ _ b (wf_addr _ Hwf) Hp). cbn [find_addr].
-  rewrite (Z.eqb_sym b). reflexivity.
-Qed.
-
 Definition fail_or_0 (old : list server) (a : Z) : Z :=
   match find_addr a old with Some o => sv_fail o | None => 0 end.
 
@@ -575,58 +576,305 @@ Proof.
   - apply IH in H. destruct H. split; [lia|right; assumption].
 Qed.
 
-Lemma build_servers_spec old : forall addrs idx acc,
-  NoDup addrs -> wf acc -> Forall in_range old ->
-  (forall x, In x acc -> sv_idx x < idx /\ ~ In (sv_addr x) addrs) ->
-  wf (build_servers old addrs idx acc) /\
-  forall b, kv b (build_servers old addrs idx acc) =
-            match expected old b idx addrs with Some p => Some p | None => kv b acc end.
+Lemma dedup_in : forall l seen x, In x (dedup seen l) <-> In x l /\ ~ In x seen.
 Proof.
-  induction addrs as [|a r IH]; intros idx acc Hnd Hwf Hold Hacc.
-  - cbn [build_servers expected]. split; [exact Hwf|reflexivity].
-  - cbn [build_servers]. inversion Hnd as [|? ? Hnot Hnd']; subst.
-    set (s := match find_addr a old with
-              | Some o => {| sv_addr := a; sv_idx := idx; sv_fail := sv_fail o; sv_retry := sv_retry o; sv_probe := sv_probe o |}
-              | None => {| sv_addr := a; sv_idx := idx; sv_fail := 0; sv_retry := (0, 0); sv_probe := false |}
-              end).
-    assert (sv_addr s = a /\ sv_idx s = idx /\ sv_fail s = fail_or_0 old a /\ in_range s) as (Hsa & Hsi & Hsf & Hsr).
-    { unfold s, fail_or_0. destruct (find_addr a old) as [o|] eqn:Ho.
-      - split; [reflexivity|]. split; [reflexivity|]. split; [reflexivity|].
-        apply find_addr_some in Ho. destruct Ho as (Hin & _). rewrite Forall_forall in Hold. apply (Hold o Hin).
-      - split; [reflexivity|]. split; [reflexivity|]. split; [reflexivity|].
-        unfold in_range, SIZE_MAX. cbn [sv_fail]. lia. }
-    assert (~ In (sv_addr s) (map sv_addr acc)) as Hna.
-    { rewrite Hsa. intros Hin. apply in_map_iff in Hin. destruct Hin as (x & Hx & Hxin).
-      destruct (Hacc x Hxin) as (_ & Hn). apply Hn. left. symmetry. exact Hx. }
-    assert (~ In (sv_idx s) (map sv_idx acc)) as Hni.
-    { rewrite Hsi. intros Hin. apply in_map_iff in Hin. destruct Hin as (x & Hx & Hxin).
-      destruct (Hacc x Hxin) as (Hlt & _). lia. }
-    destruct (insert_sorted_wf s acc Hwf Hna Hni Hsr) as (Hwf1 & Hfind1).
-    assert (forall x, In x (insert_sorted s acc) -> sv_idx x < idx + 1 /\ ~ In (sv_addr x) r) as Hacc1.
-    { intros x Hx. apply insert_sorted_in in Hx. destruct Hx as [->|Hx].
-      - rewrite Hsi, Hsa. split; [lia|exact Hnot].
-      - destruct (Hacc x Hx) as (Hlt & Hn). split; [lia|]. intros Hr. apply Hn. right. exact Hr. }
-    destruct (IH (idx + 1) (insert_sorted s acc) Hnd' Hwf1 Hold Hacc1) as (Hwf2 & Hkv2).
-    split; [exact Hwf2|]. intros b. rewrite Hkv2. cbn [expected].
+  induction l as [|a r IH]; intros seen x; [cbn; tauto|].
+  cbn [dedup]. destruct (existsb (Z.eqb a) seen) eqn:He.
+  - apply existsb_eqb_in in He. rewrite IH. cbn [In]. split.
+    + intros (H1 & H2). split; [right; exact H1|exact H2].
+    + intros ([->|H1] & H2); [contradiction|split; assumption].
+  - assert (~ In a seen) as Hn by (intros H; apply existsb_eqb_in in H; congruence).
+    cbn [In]. rewrite IH. cbn [In]. split.
+    + intros [<-|(H1 & H2)]; [split; [left; reflexivity|exact Hn]|split; [right; exact H1|tauto]].
+    + intros ([->|H1] & H2); [left; reflexivity|].
+      destruct (Z.eq_dec a x) as [->|Hne]; [left; reflexivity|right; split; [exact H1|intros [H|H]; [contradiction|exact (H2 H)]]].
+Qed.
+
+Lemma remove_addr_sorted_gen (R : server -> server -> Prop) a l :
+  StronglySorted R l -> StronglySorted R (remove_addr a l).
+Proof.
+  induction l as [|x r IH]; intros Hs; [exact Hs|]. cbn [remove_addr].
+  inversion Hs as [|? ? Hsr Hall]; subst.
+  destruct (sv_addr x =? a); [exact Hsr|].
+  constructor; [apply IH; exact Hsr|].
+  rewrite Forall_forall in Hall |- *. intros y Hy. apply Hall.
+  clear - Hy. induction r as [|z r IH]; [destruct Hy|]. cbn [remove_addr] in Hy.
+  destruct (sv_addr z =? a); [right; exact Hy|]. destruct Hy as [->|Hy]; [left; reflexivity|right; apply IH; exact Hy].
+Qed.
+
+Lemma remove_addr_none a l : find_addr a l = None -> remove_addr a l = l.
+Proof.
+  induction l as [|x r IH]; [reflexivity|]. cbn [find_addr remove_addr].
+  destruct (sv_addr x =? a); [discriminate|]. intros H. rewrite (IH H). reflexivity.
+Qed.
+
+(* re-insertion and insertion under the weak invariant (distinct addresses only) *)
+Lemma reinsert_weak l a s s' :
+  NoDup (map sv_addr l) -> StronglySorted leP l -> Forall in_range l ->
+  find_addr a l = Some s -> sv_addr s' = a -> in_range s' ->
+  NoDup (map sv_addr (reinsert s' l)) /\ StronglySorted leP (reinsert s' l) /\ Forall in_range (reinsert s' l) /\
+  forall b, find_addr b (reinsert s' l) = if b =? a then Some s' else find_addr b l.
+Proof.
+  intros Hnd Hs Hr Hf Ha Hrs.
+  pose proof (remove_addr_perm a l s Hf) as Hp.
+  pose proof (find_addr_some a l s Hf) as (_ & Hsa).
+  unfold reinsert. rewrite Ha.
+  pose proof (insert_sorted_perm s' (remove_addr a l)) as Hp2.
+  assert (NoDup (map sv_addr (s :: remove_addr a l))) as Hnd2
+    by (eapply Permutation_NoDup; [apply Permutation_map; exact Hp|exact Hnd]).
+  assert (NoDup (map sv_addr (insert_sorted s' (remove_addr a l)))) as Hnd3.
+  { eapply Permutation_NoDup; [apply Permutation_sym; apply Permutation_map; exact Hp2|].
+    cbn [map] in Hnd2 |- *. rewrite Ha. rewrite Hsa in Hnd2. exact Hnd2. }
+  split; [exact Hnd3|]. split; [apply insert_sorted_le, remove_addr_sorted_gen; exact Hs|]. split.
+  - eapply Permutation_Forall; [apply Permutation_sym; exact Hp2|]. constructor; [exact Hrs|].
+    assert (Forall in_range (s :: remove_addr a l)) as Hr2 by (eapply Permutation_Forall; [exact Hp|exact Hr]).
+    inversion Hr2; assumption.
+  - intros b. rewrite (find_addr_perm _ _ b Hnd3 Hp2). cbn [find_addr]. rewrite Ha.
     destruct (Z.eqb_spec a b) as [->|Hne].
-    + destruct (expected old b (idx + 1) r) as [p|] eqn:He.
-      * exfalso. apply expected_idx_ge in He. destruct He as (_ & Hin). exact (Hnot Hin).
-      * unfold kv. rewrite Hfind1, Hsa, Z.eqb_refl, Hsi, Hsf. reflexivity.
-    + destruct (expected old b (idx + 1) r); [reflexivity|].
-      unfold kv. rewrite Hfind1, Hsa. assert ((b =? a) = false) as -> by (apply Z.eqb_neq; congruence). reflexivity.
+    + rewrite Z.eqb_refl. reflexivity.
+    + assert ((b =? a) = false) as -> by (apply Z.eqb_neq; congruence).
+      rewrite (find_addr_perm _ _ b Hnd Hp). cbn [find_addr]. rewrite Hsa.
+      assert ((a =? b) = false) as -> by (apply Z.eqb_neq; exact Hne). reflexivity.
+Qed.
+
+Lemma insert_weak s l :
+  NoDup (map sv_addr l) -> StronglySorted leP l -> Forall in_range l ->
+  find_addr (sv_addr s) l = None -> in_range s ->
+  NoDup (map sv_addr (insert_sorted s l)) /\ StronglySorted leP (insert_sorted s l) /\
+  Forall in_range (insert_sorted s l) /\
+  forall b, find_addr b (insert_sorted s l) = if b =? sv_addr s then Some s else find_addr b l.
+Proof.
+  intros Hnd Hs Hr Hf Hrs.
+  pose proof (insert_sorted_perm s l) as Hp.
+  assert (NoDup (map sv_addr (insert_sorted s l))) as Hnd2.
+  { eapply Permutation_NoDup; [apply Permutation_sym; apply Permutation_map; exact Hp|].
+    cbn [map]. constructor; [apply find_addr_none; exact Hf|exact Hnd]. }
+  split; [exact Hnd2|]. split; [apply insert_sorted_le; exact Hs|]. split.
+  - eapply Permutation_Forall; [apply Permutation_sym; exact Hp|]. constructor; assumption.
+  - intros b. rewrite (find_addr_perm _ _ b Hnd2 Hp). cbn [find_addr]. rewrite (Z.eqb_sym b). reflexivity.
+Qed.
+
+(* the record an address of the new configuration ends up with *)
+Definition carry (old : list server) (a idx : Z) : server :=
+  match find_addr a old with Some o => set_idx o idx | None => fresh_server a idx end.
+
+Fixpoint carry_find (old : list server) (b : Z) (idx : Z) (addrs : list Z) : option server :=
+  match addrs with
+  | [] => None
+  | a :: r => if a =? b then Some (carry old a idx) else carry_find old b (idx + 1) r
+  end.
+
+Lemma set_idx_same s : set_idx s (sv_idx s) = s.
+Proof. destruct s; reflexivity. Qed.
+
+Lemma carry_find_ext l1 l2 b : forall addrs idx,
+  (forall a, In a addrs -> find_addr a l1 = find_addr a l2) ->
+  carry_find l1 b idx addrs = carry_find l2 b idx addrs.
+Proof.
+  induction addrs as [|a r IH]; intros idx H; [reflexivity|]. cbn [carry_find].
+  unfold carry. rewrite (H a (or_introl eq_refl)). destruct (a =? b); [reflexivity|].
+  apply IH. intros a' Ha'. apply H. right. exact Ha'.
+Qed.
+
+Lemma carry_find_some old b : forall addrs idx x,
+  carry_find old b idx addrs = Some x -> In b addrs /\ idx <= sv_idx x /\ sv_addr x = b.
+Proof.
+  induction addrs as [|a r IH]; intros idx x H; [discriminate|]. cbn [carry_find] in H.
+  destruct (Z.eqb_spec a b) as [->|Hne].
+  - injection H as <-. split; [left; reflexivity|]. unfold carry.
+    destruct (find_addr b old) as [o|] eqn:Ho; cbn; [|split; [lia|reflexivity]].
+    apply find_addr_some in Ho. destruct Ho as (_ & Ho). split; [lia|exact Ho].
+  - apply IH in H. destruct H as (H1 & H2 & H3). split; [right; exact H1|]. split; [lia|exact H3].
+Qed.
+
+Lemma carry_find_none old b : forall addrs idx, ~ In b addrs -> carry_find old b idx addrs = None.
+Proof.
+  induction addrs as [|a r IH]; intros idx H; [reflexivity|]. cbn [carry_find].
+  destruct (Z.eqb_spec a b) as [->|Hne]; [exfalso; apply H; left; reflexivity|].
+  apply IH. intros Hr. apply H. right. exact Hr.
+Qed.
+
+Lemma carry_find_in old b : forall addrs idx, In b addrs -> exists x, carry_find old b idx addrs = Some x.
+Proof.
+  induction addrs as [|a r IH]; intros idx H; [destruct H|]. cbn [carry_find].
+  destruct (Z.eqb_spec a b) as [->|Hne]; [eexists; reflexivity|].
+  destruct H as [->|H]; [congruence|]. apply IH. exact H.
+Qed.
+
+Lemma carry_find_idx_inj old : forall addrs idx b1 b2 x y,
+  carry_find old b1 idx addrs = Some x -> carry_find old b2 idx addrs = Some y ->
+  sv_idx x = sv_idx y -> b1 = b2.
+Proof.
+  induction addrs as [|a r IH]; intros idx b1 b2 x y H1 H2 Hi; [discriminate|].
+  cbn [carry_find] in H1, H2.
+  assert (forall o i, sv_idx (carry old o i) = i) as Hci.
+  { intros o i. unfold carry. destruct (find_addr o old); reflexivity. }
+  destruct (Z.eqb_spec a b1) as [E1|N1]; destruct (Z.eqb_spec a b2) as [E2|N2].
+  - congruence.
+  - injection H1 as <-. apply carry_find_some in H2. rewrite Hci in Hi. lia.
+  - injection H2 as <-. apply carry_find_some in H1. rewrite Hci in Hi. lia.
+  - eapply IH; eassumption.
+Qed.
+
+Lemma carry_find_kv old b : forall addrs idx,
+  match carry_find old b idx addrs with Some x => Some (sv_idx x, sv_fail x) | None => None end
+  = expected old b idx addrs.
+Proof.
+  induction addrs as [|a r IH]; intros idx; [reflexivity|]. cbn [carry_find expected].
+  destruct (a =? b); [|apply IH]. unfold carry, fail_or_0. destruct (find_addr a old); reflexivity.
+Qed.
+
+Lemma carry_range old a idx : Forall in_range old -> in_range (carry old a idx).
+Proof.
+  intros Hr. unfold carry. destruct (find_addr a old) as [o|] eqn:Ho.
+  - apply find_addr_some in Ho. destruct Ho as (Hin & _). rewrite Forall_forall in Hr. apply (Hr o Hin).
+  - unfold in_range, SIZE_MAX. cbn. lia.
+Qed.
+
+Lemma update_loop_spec : forall addrs idx l,
+  NoDup addrs -> NoDup (map sv_addr l) -> StronglySorted leP l -> Forall in_range l ->
+  NoDup (map sv_addr (update_loop addrs idx l)) /\ StronglySorted leP (update_loop addrs idx l) /\
+  Forall in_range (update_loop addrs idx l) /\
+  forall b, find_addr b (update_loop addrs idx l) =
+            match carry_find l b idx addrs with Some s => Some s | None => find_addr b l end.
+Proof.
+  induction addrs as [|a r IH]; intros idx l Hnda Hnd Hs Hr.
+  - cbn [update_loop carry_find]. repeat split; assumption.
+  - inversion Hnda as [|? ? Hnot Hnda']; subst. cbn [update_loop].
+    set (l1 := match find_addr a l with
+               | Some s => if sv_idx s =? idx then l else reinsert (set_idx s idx) l
+               | None => insert_sorted (fresh_server a idx) l end).
+    assert (NoDup (map sv_addr l1) /\ StronglySorted leP l1 /\ Forall in_range l1 /\
+            forall b, find_addr b l1 = if b =? a then Some (carry l a idx) else find_addr b l) as (Hnd1 & Hs1 & Hr1 & Hf1).
+    { unfold l1, carry. destruct (find_addr a l) as [s|] eqn:Hf.
+      - destruct (Z.eqb_spec (sv_idx s) idx) as [He|Hne].
+        + split; [exact Hnd|]. split; [exact Hs|]. split; [exact Hr|]. intros b.
+          destruct (Z.eqb_spec b a) as [->|Hb]; [|reflexivity]. rewrite Hf, <- He, set_idx_same. reflexivity.
+        + pose proof (find_addr_some a l s Hf) as (Hin & Hsa).
+          assert (in_range (set_idx s idx)) as Hrs by (rewrite Forall_forall in Hr; apply (Hr s Hin)).
+          apply (reinsert_weak l a s (set_idx s idx) Hnd Hs Hr Hf Hsa Hrs).
+      - assert (in_range (fresh_server a idx)) as Hrs by (unfold in_range, SIZE_MAX; cbn; lia).
+        apply (insert_weak (fresh_server a idx) l Hnd Hs Hr Hf Hrs). }
+    destruct (IH (idx + 1) l1 Hnda' Hnd1 Hs1 Hr1) as (Hnd2 & Hs2 & Hr2 & Hf2).
+    split; [exact Hnd2|]. split; [exact Hs2|]. split; [exact Hr2|].
+    intros b. rewrite Hf2. cbn [carry_find].
+    assert (carry_find l1 b (idx + 1) r = carry_find l b (idx + 1) r) as ->.
+    { apply carry_find_ext. intros a' Ha'. rewrite Hf1.
+      assert ((a' =? a) = false) as -> by (apply Z.eqb_neq; intros ->; exact (Hnot Ha')). reflexivity. }
+    destruct (Z.eqb_spec a b) as [->|Hne].
+    + rewrite (carry_find_none l b r (idx + 1) Hnot), Hf1, Z.eqb_refl. reflexivity.
+    + destruct (carry_find l b (idx + 1) r); [reflexivity|].
+      rewrite Hf1. assert ((b =? a) = false) as -> by (apply Z.eqb_neq; congruence). reflexivity.
+Qed.
+
+Lemma find_addr_filter addrs b : forall l,
+  find_addr b (filter (configured addrs) l) = if existsb (Z.eqb b) addrs then find_addr b l else None.
+Proof.
+  induction l as [|x r IH]; [cbn [filter find_addr]; destruct (existsb (Z.eqb b) addrs); reflexivity|].
+  cbn [filter find_addr]. unfold configured at 1.
+  destruct (Z.eqb_spec (sv_addr x) b) as [He|Hne].
+  - rewrite He. destruct (existsb (Z.eqb b) addrs) eqn:Hb.
+    + cbn [find_addr]. rewrite He, Z.eqb_refl. reflexivity.
+    + rewrite IH; try rewrite Hb; reflexivity.
+  - destruct (existsb (Z.eqb (sv_addr x)) addrs).
+    + cbn [find_addr]. assert ((sv_addr x =? b) = false) as -> by (apply Z.eqb_neq; exact Hne). exact IH.
+    + exact IH.
+Qed.
+
+Lemma nodup_map_filter {A B} (f : A -> B) p : forall l, NoDup (map f l) -> NoDup (map f (filter p l)).
+Proof.
+  induction l as [|x r IH]; intros H; [constructor|]. cbn [map] in H. inversion H as [|? ? Hn Hr]; subst.
+  cbn [filter]. destruct (p x); [|apply IH; exact Hr]. cbn [map]. constructor; [|apply IH; exact Hr].
+  intros Hin. apply Hn. apply in_map_iff in Hin. destruct Hin as (y & Hy & Hyin).
+  apply filter_In in Hyin. rewrite <- Hy. apply in_map. apply Hyin.
+Qed.
+
+Lemma sorted_filter (R : server -> server -> Prop) p : forall l,
+  StronglySorted R l -> StronglySorted R (filter p l).
+Proof.
+  induction l as [|x r IH]; intros H; [constructor|]. inversion H as [|? ? Hs Hall]; subst.
+  cbn [filter]. destruct (p x); [|apply IH; exact Hs]. constructor; [apply IH; exact Hs|].
+  rewrite Forall_forall in Hall |- *. intros y Hy. apply Hall. apply filter_In in Hy. apply Hy.
+Qed.
+
+Lemma nodup_map_inj {A B C} (f : A -> B) (g : A -> C) : forall l,
+  (forall x y, In x l -> In y l -> f x = f y -> g x = g y) -> NoDup (map g l) -> NoDup (map f l).
+Proof.
+  induction l as [|x r IH]; intros Hinj H; [constructor|]. cbn [map] in H |- *.
+  inversion H as [|? ? Hn Hr]; subst. constructor.
+  - intros Hin. apply Hn. apply in_map_iff in Hin. destruct Hin as (y & Hy & Hyin).
+    rewrite <- (Hinj y x (or_intror Hyin) (or_introl eq_refl) Hy). apply in_map. exact Hyin.
+  - apply IH; [|exact Hr]. intros a b Ha Hb. apply Hinj; right; assumption.
+Qed.
+
+Lemma le_sorted_strict : forall l,
+  StronglySorted leP l -> NoDup (map sv_idx l) -> StronglySorted ltP l.
+Proof.
+  induction l as [|x r IH]; intros Hs Hnd; [constructor|].
+  inversion Hs as [|? ? Hsr Hall]; subst. cbn [map] in Hnd. inversion Hnd as [|? ? Hn Hnd']; subst.
+  constructor; [apply IH; assumption|].
+  rewrite Forall_forall in Hall |- *. intros y Hy. specialize (Hall y Hy). unfold leP in Hall. unfold ltP.
+  destruct (srv_lt_connected x y) as [H|H]; [intros He; apply Hn; rewrite He; apply in_map; exact Hy|exact H|congruence].
+Qed.
+
+Lemma lt_sorted_le : forall l, StronglySorted ltP l -> StronglySorted leP l.
+Proof.
+  induction l as [|x r IH]; intros Hs; [constructor|]. inversion Hs as [|? ? Hsr Hall]; subst.
+  constructor; [apply IH; exact Hsr|]. rewrite Forall_forall in Hall |- *. intros y Hy.
+  unfold leP. apply srv_lt_asym. apply Hall. exact Hy.
+Qed.
+
+Lemma existsb_dedup addrs b : existsb (Z.eqb b) addrs = true <-> In b (dedup [] addrs).
+Proof. rewrite existsb_eqb_in, dedup_in. cbn. tauto. Qed.
+
+(* ares_servers_update: the resulting table *)
+Lemma servers_update_spec old addrs :
+  NoDup (map sv_addr old) -> StronglySorted leP old -> Forall in_range old ->
+  wf (servers_update old addrs) /\
+  (forall b, kv b (servers_update old addrs) = expected old b 0 (dedup [] addrs)) /\
+  Permutation (map sv_addr (servers_update old addrs)) (dedup [] addrs).
+Proof.
+  intros Hnd Hs Hr. destruct (dedup_nodup addrs []) as (Hndd & _).
+  destruct (update_loop_spec (dedup [] addrs) 0 old Hndd Hnd Hs Hr) as (Hnd1 & Hs1 & Hr1 & Hf1).
+  unfold servers_update. set (l1 := update_loop (dedup [] addrs) 0 old) in *.
+  set (keep := filter (configured addrs) l1).
+  assert (NoDup (map sv_addr keep)) as Hndk by (apply nodup_map_filter; exact Hnd1).
+  (* every kept element is the carried record of its address *)
+  assert (forall x, In x keep -> carry_find old (sv_addr x) 0 (dedup [] addrs) = Some x) as Hcar.
+  { intros x Hx. apply filter_In in Hx. destruct Hx as (Hx1 & Hcfg).
+    pose proof (find_addr_in_nodup l1 x Hnd1 Hx1) as Hfx. rewrite Hf1 in Hfx.
+    unfold configured in Hcfg. apply existsb_dedup in Hcfg.
+    destruct (carry_find_in old (sv_addr x) (dedup [] addrs) 0 Hcfg) as (y & Hy). rewrite Hy in Hfx |- *. exact Hfx. }
+  assert (forall b, find_addr b keep = carry_find old b 0 (dedup [] addrs)) as Hfk.
+  { intros b. unfold keep. rewrite find_addr_filter, Hf1.
+    destruct (existsb (Z.eqb b) addrs) eqn:Hb.
+    - apply existsb_dedup in Hb. destruct (carry_find_in old b (dedup [] addrs) 0 Hb) as (y & Hy). rewrite Hy. reflexivity.
+    - symmetry. apply carry_find_none. intros Hin. apply existsb_dedup in Hin. congruence. }
+  assert (NoDup (map sv_idx keep)) as Hndi.
+  { apply (nodup_map_inj sv_idx sv_addr); [|exact Hndk]. intros x y Hx Hy Hi.
+    eapply carry_find_idx_inj; [apply Hcar; exact Hx|apply Hcar; exact Hy|exact Hi]. }
+  split; [|split].
+  - constructor; [exact Hndk|exact Hndi| |].
+    + apply le_sorted_strict; [apply sorted_filter; exact Hs1|exact Hndi].
+    + rewrite Forall_forall in Hr1 |- *. intros x Hx. apply Hr1. apply filter_In in Hx. apply Hx.
+  - intros b. unfold kv. fold keep. rewrite Hfk. apply carry_find_kv.
+  - apply NoDup_Permutation; [exact Hndk|exact Hndd|]. intros b. split.
+    + intros Hin. apply in_map_iff in Hin. destruct Hin as (x & Hx & Hxin). rewrite <- Hx.
+      apply (carry_find_some old (sv_addr x) (dedup [] addrs) 0 x (Hcar x Hxin)).
+    + intros Hin. destruct (carry_find_in old b (dedup [] addrs) 0 Hin) as (y & Hy).
+      rewrite <- Hfk in Hy. apply find_addr_some in Hy. destruct Hy as (Hyin & Hya). rewrite <- Hya. apply in_map. exact Hyin.
 Qed.
 
 Lemma wf_nil : wf [].
 Proof. constructor; constructor. Qed.
 
-Lemma build_from_wf old addrs :
-  Forall in_range old ->
-  wf (build_servers old (dedup [] addrs) 0 []) /\
-  forall b, kv b (build_servers old (dedup [] addrs) 0 []) = expected old b 0 (dedup [] addrs).
+Lemma servers_update_wf old addrs :
+  wf old ->
+  wf (servers_update old addrs) /\
+  (forall b, kv b (servers_update old addrs) = expected old b 0 (dedup [] addrs)) /\
+  Permutation (map sv_addr (servers_update old addrs)) (dedup [] addrs).
 Proof.
-  intros Hold. destruct (dedup_nodup addrs []) as (Hnd & _).
-  destruct (build_servers_spec old (dedup [] addrs) 0 [] Hnd wf_nil Hold ltac:(intros x [])) as (Hwf & Hkv).
-  split; [exact Hwf|]. intros b. rewrite Hkv. destruct (expected old b 0 (dedup [] addrs)); reflexivity.
+  intros [Ha Hi Hs Hr]. apply servers_update_spec; [exact Ha|apply lt_sorted_le; exact Hs|exact Hr].
 Qed.
 
 (* ------------------------------------------------------------------------------------ *)
@@ -667,8 +915,8 @@ Inductive fresh_shape (ch : chan) (label : nat) (try : Z) : chan -> list obs -> 
     (exists su, In su (ch_servers ch) /\ sv_addr su = a /\ sv_fail su = 0) ->
     fresh_shape ch label try ch' [OTx label a false; OTx pl (sv_addr ps) true].
 
-Lemma send_fresh_shape ch label try c ch' obs :
-  wf (ch_servers ch) -> send_fresh ch label try c = Ok (ch', obs) ->
+Lemma send_fresh_shape ch label try err c ch' obs :
+  wf (ch_servers ch) -> send_fresh ch label try err c = Ok (ch', obs) ->
   fresh_shape ch label try ch' obs /\ same_config ch ch'.
 Proof.
   intros Hwf H. unfold send_fresh in H.
@@ -838,8 +1086,8 @@ Lemma requeue_sound ch a status c ch' obs m :
   map key (ch_servers ch') = map key (ch_servers ch) /\ mon_run m obs = Some m /\ agree m ch'.
 Proof.
   intros Hwf Hag H. unfold requeue in H.
-  destruct ((at_try a + 1 <? Z.of_nat (length (ch_servers ch)) * ch_tries ch) && negb (at_probe a)).
-  - destruct (send_fresh_shape _ _ _ _ _ _ Hwf H) as (Hsh & Hcfg).
+  destruct (requeue_sends ch a).
+  - destruct (send_fresh_shape _ _ _ _ _ _ _ Hwf H) as (Hsh & Hcfg).
     split; [apply (fresh_shape_key _ _ _ _ _ Hsh)|]. apply (fresh_accept m ch _ _ ch' obs Hwf Hag Hsh Hcfg).
   - injection H as <- <-. split; [reflexivity|]. split; [|exact Hag]. destruct (at_probe a); reflexivity.
 Qed.
@@ -939,22 +1187,42 @@ Definition accounting (ch : chan) (ev : event) (ch' : chan) : Prop :=
     forall a, find_attempt label (ch_inflight ch) = Some a -> kv_after_good (at_server a) (ch_servers ch) (ch_servers ch')
   | EvRefuse label _ _ | EvTimeout label _ =>
     forall a, find_attempt label (ch_inflight ch) = Some a -> kv_after_fail (at_server a) (ch_servers ch) (ch_servers ch')
-  | EvSetServers addrs =>
-    forall b, kv b (ch_servers ch') = expected (ch_servers ch) b 0 (dedup [] addrs)
+  | EvSetServers addrs _ =>
+    (forall b, kv b (ch_servers ch') = expected (ch_servers ch) b 0 (dedup [] addrs)) /\
+    Permutation (map sv_addr (ch_servers ch')) (dedup [] addrs)
   end.
+
+Lemma requeue_all_sound : forall vs ch cs n ch' obs m,
+  wf (ch_servers ch) -> agree m ch -> requeue_all ch vs cs n = Ok (ch', obs) ->
+  map key (ch_servers ch') = map key (ch_servers ch) /\ mon_run m obs = Some m /\ agree m ch'.
+Proof.
+  induction vs as [|a r IH]; intros ch cs n ch' obs m Hwf Hag H.
+  - injection H as <- <-. split; [reflexivity|]. split; [reflexivity|exact Hag].
+  - cbn [requeue_all] in H.
+    set (ch0 := set_inflight ch (remove_attempt (at_label a) (ch_inflight ch))) in H.
+    assert (wf (ch_servers ch0)) as Hwf0 by exact Hwf.
+    assert (agree m ch0) as Hag0 by exact Hag.
+    destruct (requeue ch0 a ARES_SUCCESS (nth_choice cs n)) as [[ch1 o1]| |] eqn:Hr; cbn [bind fst snd] in H; try discriminate.
+    destruct (requeue_all ch1 r cs (if requeue_sends ch0 a then S n else n)) as [[ch2 o2]| |] eqn:Hr2; cbn [bind fst snd] in H; try discriminate.
+    injection H as <- <-.
+    destruct (requeue_sound _ _ _ _ _ _ m Hwf0 Hag0 Hr) as (Hk1 & Hrun1 & Hag1).
+    assert (wf (ch_servers ch1)) as Hwf1 by (eapply wf_key; [symmetry; exact Hk1|exact Hwf0]).
+    destruct (IH _ _ _ _ _ m Hwf1 Hag1 Hr2) as (Hk2 & Hrun2 & Hag2).
+    split; [rewrite Hk2, Hk1; reflexivity|]. split; [rewrite mon_run_app, Hrun1; exact Hrun2|exact Hag2].
+Qed.
 
 Lemma step_sound ch ev ch' obs m :
   wf (ch_servers ch) -> agree m ch -> step ch ev = Ok (ch', obs) ->
   wf (ch_servers ch') /\ accounting ch ev ch' /\ exists m', mon_run m obs = Some m' /\ agree m' ch'.
 Proof.
-  intros Hwf Hag H. destruct ev as [c|label|label status c|label c|ms|addrs]; cbn [step] in H.
+  intros Hwf Hag H. destruct ev as [c|label|label status c|label c|ms|addrs cs]; cbn [step] in H.
   - (* EvSend *)
     destruct (Nat.eqb (length (ch_servers ch)) 0).
     + injection H as <- <-. split; [exact Hwf|]. split; [intros b; reflexivity|].
       exists m. split; [reflexivity|exact Hag].
     + assert (wf (ch_servers (bump_label ch))) as Hwf' by exact Hwf.
       assert (agree m (bump_label ch)) as Hag' by exact Hag.
-      destruct (send_fresh_shape _ _ _ _ _ _ Hwf' H) as (Hsh & Hcfg).
+      destruct (send_fresh_shape _ _ _ _ _ _ _ Hwf' H) as (Hsh & Hcfg).
       pose proof (fresh_shape_key _ _ _ _ _ Hsh) as Hkey. cbn [ch_servers bump_label] in Hkey.
       split; [eapply wf_key; [symmetry; exact Hkey|exact Hwf]|]. split.
       * intros b. apply kv_key; [|exact Hkey]. apply (nodup_addr_key (ch_servers ch)); [symmetry; exact Hkey|apply (wf_addr _ Hwf)].
@@ -978,14 +1246,27 @@ Proof.
     injection H as <- <-. split; [exact Hwf|]. split; [intros b; reflexivity|].
     exists m. split; [reflexivity|exact Hag].
   - (* EvSetServers *)
-    destruct (ch_inflight ch); [|discriminate]. injection H as <- <-.
-    destruct (build_from_wf (ch_servers ch) addrs (wf_range _ Hwf)) as (Hwf2 & Hkv).
-    cbn [ch_servers set_servers]. split; [exact Hwf2|]. split; [exact Hkv|].
+    destruct (servers_update_wf (ch_servers ch) addrs Hwf) as (Hwfk & Hkv & Hperm).
+    set (keep := servers_update (ch_servers ch) addrs) in *.
+    destruct (requeue_all (set_servers ch keep) (victims (servers_stale (ch_servers ch) addrs) (ch_inflight ch)) cs 0)
+      as [[ch2 o2]| |] eqn:Hrq; cbn [bind fst snd] in H; try discriminate.
+    injection H as <- <-.
     destruct Hag as (Hrot & Hnd & Hk).
-    eexists. split; [reflexivity|]. split; [exact Hrot|]. split.
-    + cbn [m_servers]. rewrite mon_build_addr. apply (dedup_nodup addrs []).
-    + intros b. cbn [m_servers ch_servers set_servers]. rewrite mon_build_kv, Hkv.
-      apply expected_kv. exact Hk.
+    set (m1 := {| m_rotate := m_rotate m; m_servers := mon_build (m_servers m) (dedup [] addrs) 0 |}).
+    assert (agree m1 (set_servers ch keep)) as Hag1.
+    { split; [exact Hrot|]. split.
+      - cbn [m1 m_servers]. rewrite mon_build_addr. apply (dedup_nodup addrs []).
+      - intros b. cbn [m1 m_servers ch_servers set_servers]. rewrite mon_build_kv, Hkv. apply expected_kv. exact Hk. }
+    assert (wf (ch_servers (set_servers ch keep))) as Hwf1 by exact Hwfk.
+    destruct (requeue_all_sound _ _ _ _ _ _ m1 Hwf1 Hag1 Hrq) as (Hkey & Hrun & Hag2).
+    cbn [ch_servers set_servers] in Hkey.
+    assert (forall b, kv b (ch_servers ch2) = kv b keep) as Hk2.
+    { intros b. apply kv_key; [|exact Hkey]. apply (nodup_addr_key keep); [symmetry; exact Hkey|apply (wf_addr _ Hwfk)]. }
+    split; [eapply wf_key; [symmetry; exact Hkey|exact Hwfk]|]. split.
+    + split; [intros b; rewrite Hk2; apply Hkv|].
+      replace (map sv_addr (ch_servers ch2)) with (map (fun k => fst (fst k)) (map key (ch_servers ch2))) by (rewrite map_map; reflexivity).
+      rewrite Hkey, map_map. exact Hperm.
+    + exists m1. split; [|exact Hag2]. cbn [mon_run mon_step]. fold m1. exact Hrun.
 Qed.
 
 Lemma run_sound : forall evs ch ch' obs m,
@@ -1007,7 +1288,7 @@ Lemma init_sound addrs rotate tries chance delay now :
   wf (ch_servers (init_chan addrs rotate tries chance delay now)) /\
   agree (mon_init addrs rotate) (init_chan addrs rotate tries chance delay now).
 Proof.
-  destruct (build_from_wf [] addrs ltac:(constructor)) as (Hwf & Hkv).
+  destruct (servers_update_wf [] addrs wf_nil) as (Hwf & Hkv & _).
   split; [exact Hwf|]. split; [reflexivity|]. split.
   - cbn [mon_init m_servers]. rewrite mon_build_addr. apply (dedup_nodup addrs []).
   - intros b. cbn [mon_init m_servers init_chan ch_servers]. rewrite mon_build_kv, Hkv. reflexivity.
@@ -1050,9 +1331,9 @@ Qed.
    same server table (address, index, failures, retry time) and the same user attempts in
    flight; the only differences are the probe's own datagram, its in-flight entry and the
    probe_pending flag of the probed server. *)
-Lemma probe_isolated ch label try c ch1 obs1 :
-  wf (ch_servers ch) -> send_fresh ch label try c = Ok (ch1, obs1) ->
-  exists ch0, send_fresh (with_chance ch 0) label try c = Ok (ch0, filter user_obs obs1) /\
+Lemma probe_isolated ch label try err c ch1 obs1 :
+  wf (ch_servers ch) -> send_fresh ch label try err c = Ok (ch1, obs1) ->
+  exists ch0, send_fresh (with_chance ch 0) label try err c = Ok (ch0, filter user_obs obs1) /\
     map key4 (ch_servers ch0) = map key4 (ch_servers ch1) /\
     filter user_attempt (ch_inflight ch0) = filter user_attempt (ch_inflight ch1).
 Proof.
@@ -1093,7 +1374,7 @@ Lemma probe_failure_ends ch a status c ch' obs :
 Proof.
   intros Hp H. unfold fail_attempt in H.
   destruct (server_increment_failures _ _ _ _) as [l1| |]; cbn [bind] in H; try discriminate.
-  unfold requeue in H. rewrite Hp in H. cbn [negb] in H. rewrite andb_false_r in H. cbn [bind fst snd] in H.
+  unfold requeue, requeue_sends in H. rewrite Hp in H. cbn [negb] in H. rewrite andb_false_r in H. cbn [bind fst snd] in H.
   injection H as <- <-. cbn [ch_inflight set_servers set_inflight]. split; [|reflexivity].
   cbn [ch_servers set_inflight]. destruct (find_addr (at_server a) (ch_servers ch)); [left|right]; reflexivity.
 Qed.
@@ -1101,8 +1382,8 @@ Qed.
 (* when a probe is sent: only with the user's first attempt, which went to a server without
    failures; to another server that has failures, no probe pending, and whose retry time has
    come; and only if the draw allows it *)
-Lemma probe_sent_conditions ch label try c ch' obs pl pa :
-  wf (ch_servers ch) -> send_fresh ch label try c = Ok (ch', obs) -> In (OTx pl pa true) obs ->
+Lemma probe_sent_conditions ch label try err c ch' obs pl pa :
+  wf (ch_servers ch) -> send_fresh ch label try err c = Ok (ch', obs) -> In (OTx pl pa true) obs ->
   try = 0 /\ ch_chance ch <> 0 /\ c_probe c mod ch_chance ch = 0 /\
   exists ps, In ps (ch_servers ch) /\ sv_addr ps = pa /\ 0 < sv_fail ps /\ sv_probe ps = false /\
     (exists t, c_ares_timedout (fst (ch_now ch)) (fst (sv_retry ps)) (snd (ch_now ch)) (snd (sv_retry ps)) = Ok t /\ t <> 0) /\
@@ -1226,3 +1507,76 @@ Qed.
 Lemma fresh_okb_iff rotate l a : NoDup (map sv_addr l) ->
   (fresh_okb rotate l a = true <-> fresh_ok rotate l a).
 Proof. intros H. split; [apply fresh_okb_sound; exact H|apply fresh_okb_complete; exact H]. Qed.
+
+(* ------------------------------------------------------------------------------------ *)
+(* Server-list edits                                                                     *)
+(* ------------------------------------------------------------------------------------ *)
+
+(* the index a server gets is the position of its address in the new configuration (first
+   occurrence, duplicates skipped) *)
+Lemma expected_position old b : forall addrs idx i f,
+  expected old b idx addrs = Some (i, f) ->
+  idx <= i /\ nth_error addrs (Z.to_nat (i - idx)) = Some b /\ f = fail_or_0 old b.
+Proof.
+  induction addrs as [|a r IH]; intros idx i f H; [discriminate|]. cbn [expected] in H.
+  destruct (Z.eqb_spec a b) as [->|Hne].
+  - injection H as <- <-. rewrite Z.sub_diag. split; [lia|]. split; reflexivity.
+  - apply IH in H. destruct H as (H1 & H2 & H3). split; [lia|]. split; [|exact H3].
+    replace (Z.to_nat (i - idx)) with (S (Z.to_nat (i - (idx + 1)))) by lia. exact H2.
+Qed.
+
+(* C09 across edits: after ANY update (whatever is in flight) the table is well formed - sorted
+   by (consecutive failures, NEW index), distinct addresses and indexes -, its addresses are a
+   permutation of the new configuration without duplicates, every server has the position of its
+   address as index and keeps its failures iff it was known before *)
+Lemma edit_result old addrs :
+  wf old ->
+  wf (servers_update old addrs) /\
+  Permutation (map sv_addr (servers_update old addrs)) (dedup [] addrs) /\
+  forall s, In s (servers_update old addrs) ->
+    nth_error (dedup [] addrs) (Z.to_nat (sv_idx s)) = Some (sv_addr s) /\ 0 <= sv_idx s /\
+    sv_fail s = fail_or_0 old (sv_addr s).
+Proof.
+  intros Hwf. destruct (servers_update_wf old addrs Hwf) as (Hwf' & Hkv & Hperm).
+  split; [exact Hwf'|]. split; [exact Hperm|]. intros s Hs.
+  pose proof (kv_in _ s (wf_addr _ Hwf') Hs) as Hk. rewrite Hkv in Hk.
+  destruct (expected_position _ _ _ _ _ _ Hk) as (H1 & H2 & H3).
+  rewrite Z.sub_0_r in H2. split; [exact H2|]. split; [exact H1|exact H3].
+Qed.
+
+(* list_changed (query cache flush) is false exactly when the set of addresses is unchanged *)
+Lemma update_changed_false old addrs :
+  update_changed old addrs = false ->
+  forall a, In a addrs <-> In a (map sv_addr old).
+Proof.
+  unfold update_changed. intros H. apply orb_false_iff in H. destruct H as (H1 & H2). intros a. split.
+  - intros Hin. destruct (find_addr a old) as [s|] eqn:Hf.
+    + apply find_addr_some in Hf. destruct Hf as (Hs & <-). apply in_map. exact Hs.
+    + exfalso. assert (existsb (fun a => match find_addr a old with Some _ => false | None => true end) addrs = true) as Ht.
+      { apply existsb_exists. exists a. split; [exact Hin|]. rewrite Hf. reflexivity. }
+      congruence.
+  - intros Hin. apply in_map_iff in Hin. destruct Hin as (s & <- & Hs).
+    destruct (configured addrs s) eqn:Hc; [apply existsb_eqb_in; exact Hc|].
+    exfalso. assert (existsb (fun s => negb (configured addrs s)) old = true) as Ht.
+    { apply existsb_exists. exists s. split; [exact Hs|]. rewrite Hc. reflexivity. }
+    congruence.
+Qed.
+
+(* The PINNED ares_servers_remove_stale destroys stale servers one at a time.  Reachable
+   witness: servers 1,2,3; 2 has one failure; query 3 in flight on 1; the application installs
+   the list [2].  Destroying server 1 re-queues the query to server 3 - which is not in the new
+   configuration and is destroyed next - and only then to server 2. *)
+Definition history_stale : list event :=
+  [EvSend draw0; EvRefuse 0 ARES_ESERVFAIL draw0; EvRefuse 0 ARES_ESERVFAIL draw0; EvAnswer 0;
+   EvSend draw0; EvAnswer 1; EvAnswer 2; EvSend draw0].
+
+Lemma edit_pinned_refuted :
+  exists ch obs0, run (init_chan [1; 2; 3] false 3 1 0 (100000, 0)) history_stale = Ok (ch, obs0) /\
+    (exists ch', set_servers_pinned ch [2] [] = Ok (ch', [OServers [2]; OTx 3 3 false; OTx 3 2 false])) /\
+    (exists ch', step ch (EvSetServers [2] []) = Ok (ch', [OServers [2]; OTx 3 2 false])) /\
+    mon_run (mon_init [1; 2; 3] false) (obs0 ++ [OServers [2]; OTx 3 3 false]) = None.
+Proof.
+  eexists. eexists. split; [vm_compute; reflexivity|].
+  split; [eexists; vm_compute; reflexivity|]. split; [eexists; vm_compute; reflexivity|].
+  vm_compute. reflexivity.
+Qed.
